@@ -229,18 +229,47 @@ def b3_convert(ctx):
                     ctx.finding('B3', 'not-rounded/%s' % tname, "'N to %s' yields %s: N is not rounded to the nearest integer by the conversion" % (tname.lower(), vt[:100]), site=b.loc)
     if n < 4:
         raise AnchorLost('number_type_convert: expected 4 target types, found %d' % n)
-    # word table of the code vs configured words
+    # word table of the code vs configured words: the type operand of the result, evaluated (E6b) for each target word -
+    # however the table is spelled (match arms, a const table searched with find, a helper)
+    from ..evalint import feasible_alternatives
+    tys = []
+    for v, inner, conds in result_alternatives(b):
+        if v == 'Ok' and inner[0] == 'aggr' and inner[1] == 'types::TokenType::Number':
+            tys.append((inner[2][1], conds))
+
+    def selected(word):
+        def leaf(body, e):
+            e0 = strip(e)
+            if e0[0] == 'call' and re.search(r'PartialEq.*::eq$', e0[1]) and len(e0[2]) == 2:
+                lits = [model.const_str(x) for x in e0[2]]
+                if sum(1 for l in lits if l is not None) == 1:
+                    return int([l for l in lits if l is not None][0] == word)
+            return None
+        out = set()
+        from ..evalint import try_ev
+        for ty, conds in tys:
+            dead = False
+            for d, v in conds:
+                dv = try_ev(b, d, leaf)
+                if isinstance(dv, int) and ((dv in v[1]) if isinstance(v, tuple) else (dv not in v)):
+                    dead = True
+            if dead:
+                continue
+            for val, a in feasible_alternatives(b, ty, leaf):
+                a0 = strip(a)
+                if a0[0] == 'aggr' and a0[1].startswith('types::NumberType::'):
+                    out.add(a0[1].rsplit('::', 1)[1])
+                else:
+                    out.add('?' + render(a0)[:30])
+        return out
+    cfg_words = set(w for lang, l in ctx.config.languages.items() for w in l['word_group'].get('number_type_group', []))
     words = {}
-    for i in b.normal_blocks:
-        for s in b.blocks[i]['stmts']:
-            if s['k'] == 'assign' and s['rv'] == 'aggr' and s['adt'].startswith('types::NumberType::'):
-                for d, v in b.incoming_edge_conds(i):
-                    ds = strip(d)
-                    if ds[0] == 'call' and re.search(r'PartialEq.*::eq$', ds[1]):
-                        lit = [model.const_str(x) for x in ds[2]]
-                        lit = [x for x in lit if x is not None]
-                        if lit:
-                            words[lit[0]] = s['adt'].rsplit('::', 1)[1]
+    for w in sorted(set(['hex', 'hexadecimal', 'octal', 'binary', 'decimal']) | cfg_words):
+        sel = selected(w)
+        if len(sel) == 1:
+            words[w] = list(sel)[0]
+        elif len(sel) > 1:
+            words[w] = '/'.join(sorted(sel))
     want = {'hex': 'Hexadecimal', 'hexadecimal': 'Hexadecimal', 'octal': 'Octal', 'binary': 'Binary', 'decimal': 'Decimal'}
     for w, t in want.items():
         if words.get(w) != t:
